@@ -2,6 +2,8 @@
 
 package nts
 
+import "example.com/scion-time/net/ntske"
+
 // Contracts for the verification machinery in /verif (comment-only; not compiled without the tag "verif").
 
 // b is an arbitrary datagram; the loop over extension fields must make progress on every input.
@@ -132,3 +134,112 @@ package nts
 //@   loop 1 invariant mathint(pos)+(mathint(len(pkt.CookiePlaceholders))-mathint(iter()))*punit(pkt)+40+mpad4(len(pkt.Auth.PlainText)) <= 1024
 //@   ensures length: mathint(len(*b)) == ntsLen(pkt)
 //@   ensures covered: sealed() && sameslice(lastSealAD(), (*b)[:len(*b)-40-pad4(len(pkt.Auth.PlainText))]) && sameslice(lastSealKey(), pkt.Auth.Key) && sameslice(lastSealPT(), pkt.Auth.PlainText)
+
+// Verification of the authenticator: the key handed to Open is `key`, the associated data is exactly the
+// bytes of b that precede the authenticator field, nonce and ciphertext are the ones decoded from it.
+//@ func (*Packet).authenticate
+//@   aead open
+//@   requires pkt != nil && 0 <= pkt.Auth.pos && pkt.Auth.pos <= len(b)
+//@   modifies pkt.Cookies, pkt.Cookies[:]
+//@   allocates
+//@   loop 0 invariant 0 <= pos && (regionof(pkt.Cookies) == old(regionof(pkt.Cookies)) || fresh(pkt.Cookies)) && len(decrytedBuf) == before(len(decrytedBuf)) && len(pkt.Cookies) >= old(len(pkt.Cookies))
+//@   loop 0 decreases len(decrytedBuf)-pos
+//@   ensures opened: result == nil ==> opened() && sameslice(lastOpenKey(), key) && sameslice(lastOpenAD(), b[:pkt.Auth.pos]) && sameslice(lastOpenNonce(), pkt.Auth.Nonce) && sameslice(lastOpenCT(), pkt.Auth.CipherText)
+//@   ensures noncelen: result == nil ==> len(pkt.Auth.Nonce) == 16
+//@   ensures grows: len(pkt.Cookies) >= old(len(pkt.Cookies))
+
+//@ func ProcessRequest
+//@   aead open
+//@   requires pkt != nil && 0 <= pkt.Auth.pos && pkt.Auth.pos <= len(b)
+//@   modifies pkt.Cookies, pkt.Cookies[:]
+//@   allocates
+//@   ensures opened: result == nil ==> opened() && sameslice(lastOpenKey(), key) && sameslice(lastOpenAD(), b[:pkt.Auth.pos]) && sameslice(lastOpenNonce(), pkt.Auth.Nonce) && sameslice(lastOpenCT(), pkt.Auth.CipherText)
+
+// A response is accepted only if it echoes the request's unique identifier and its authenticator opens under
+// `key` over the bytes preceding it; cookies are stored only after both checks passed.
+//@ func ProcessResponse
+//@   aead open
+//@   requires pkt != nil && ntskeFetcher != nil && 0 <= pkt.Auth.pos && pkt.Auth.pos <= len(b)
+//@   modifies pkt.Cookies, pkt.Cookies[:], *ntskeFetcher.VerifPool(), (*ntskeFetcher.VerifPool())[:]
+//@   allocates
+//@   loop 0 invariant len((*ntskeFetcher.VerifPool())) == before(len((*ntskeFetcher.VerifPool())))+iter() && (regionof((*ntskeFetcher.VerifPool())) == old(regionof((*ntskeFetcher.VerifPool()))) || fresh((*ntskeFetcher.VerifPool())))
+//@   ensures uid: result == nil ==> bytes.Equal(reqID, pkt.UniqueID.ID)
+//@   ensures opened: result == nil ==> opened() && sameslice(lastOpenKey(), key) && sameslice(lastOpenAD(), b[:pkt.Auth.pos]) && sameslice(lastOpenNonce(), pkt.Auth.Nonce) && sameslice(lastOpenCT(), pkt.Auth.CipherText)
+//@   ensures stored: result == nil ==> len((*ntskeFetcher.VerifPool())) == old(len((*ntskeFetcher.VerifPool())))+len(pkt.Cookies)
+//@   ensures rejected: result != nil ==> len((*ntskeFetcher.VerifPool())) == old(len((*ntskeFetcher.VerifPool()))) && regionof((*ntskeFetcher.VerifPool())) == old(regionof((*ntskeFetcher.VerifPool())))
+
+// One cookie (the first of the pool) plus one placeholder of the same length per cookie missing from a
+// pool of eight; a fresh 32-byte unique identifier; the client-to-server key.
+//@ func NewRequestPacket
+//@   requires 1 <= len(ntskeData.Cookie) && len(ntskeData.Cookie) <= 8
+//@   allocates
+//@   loop 0 invariant len(pkt.CookiePlaceholders) == i-len(ntskeData.Cookie) && len(cookiePlaceholderData) == len(ntskeData.Cookie[0]) && (cap(pkt.CookiePlaceholders) == 0 || fresh(pkt.CookiePlaceholders))
+//@   loop 0 invariant forall(q, 0, len(pkt.CookiePlaceholders), sameslice(pkt.CookiePlaceholders[q].Cookie, cookiePlaceholderData))
+//@   loop 0 invariant len(pkt.Cookies) == 1 && sameslice(pkt.Cookies[0].Cookie, ntskeData.Cookie[0]) && fresh(pkt.Cookies) && len(id) == 32 && sameslice(pkt.UniqueID.ID, id)
+//@   ensures cookie: len(pkt.Cookies) == 1 && sameslice(pkt.Cookies[0].Cookie, ntskeData.Cookie[0])
+//@   ensures placeholders: len(pkt.CookiePlaceholders) == 8-len(ntskeData.Cookie) && forall(q, 0, len(pkt.CookiePlaceholders), len(pkt.CookiePlaceholders[q].Cookie) == len(ntskeData.Cookie[0]))
+//@   ensures uid: len(uniqueid) == 32 && sameslice(pkt.UniqueID.ID, uniqueid) && fresh(uniqueid)
+//@   ensures key: sameslice(pkt.Auth.Key, ntskeData.C2sKey) && pkt.Auth.PlainText == nil
+
+// The reply's encrypted payload is one cookie extension field per cookie (cookies of one 4-aligned length).
+//@ func NewResponsePacket
+//@   requires 1 <= len(cookies) && len(cookies) <= 64 && len(cookies[0]) <= 1024 && len(cookies[0])%4 == 0
+//@   requires forall(q, 0, len(cookies), len(cookies[q]) == len(cookies[0]))
+//@   allocates
+//@   loop 0 invariant pos == iter()*(4+len(cookies[0])) && err == nil && len(buf) == len(cookies)*(4+len(cookies[0])) && fresh(buf)
+//@   ensures payload: len(pkt.Auth.PlainText) == len(cookies)*(4+len(cookies[0])) && fresh(pkt.Auth.PlainText)
+//@   ensures plumbing: sameslice(pkt.Auth.Key, key) && sameslice(pkt.UniqueID.ID, uniqueid) && len(pkt.Cookies) == 0 && len(pkt.CookiePlaceholders) == 0
+
+// ---- Ghost harnesses (compiled only with the tag "verif"): client request and server reply, end to end ----
+// This project's servers issue 124-byte cookies (14 + 16-byte nonce + 94-byte ciphertext of a 78-byte plaintext).
+
+func verifClientRequest(data ntske.Data) []byte {
+	buf := make([]byte, ntpPacketLen)
+	pkt, _ := NewRequestPacket(data)
+	EncodePacket(&buf, &pkt)
+	return buf
+}
+
+// Pool levels 2..8: the request is 1 cookie + (8-level) placeholders and fits into MaxPacketLen.
+//@ func verifClientRequest
+//@   requires 2 <= len(data.Cookie) && len(data.Cookie) <= 8 && len(data.C2sKey) == 32
+//@   requires forall(q, 0, len(data.Cookie), len(data.Cookie[q]) == 124)
+//@   ensures size: len(result) == 124+(9-len(data.Cookie))*128 && len(result) <= 1024
+
+func verifClientRequestLastCookie(data ntske.Data) []byte {
+	buf := make([]byte, ntpPacketLen)
+	pkt, _ := NewRequestPacket(data)
+	EncodePacket(&buf, &pkt)
+	return buf
+}
+
+// Pool level 1 (seven consecutive losses): the statement demands that this request fits too.
+//@ func verifClientRequestLastCookie
+//@   requires len(data.Cookie) == 1 && len(data.C2sKey) == 32 && len(data.Cookie[0]) == 124
+//@   ensures size: len(result) <= 1024
+
+func verifServerReply(cookies [][]byte, key []byte, uniqueid []byte) []byte {
+	buf := make([]byte, ntpPacketLen)
+	pkt := NewResponsePacket(cookies, key, uniqueid)
+	EncodePacket(&buf, &pkt)
+	return buf
+}
+
+// Up to seven requested cookies: the reply carries all of them and fits.
+//@ func verifServerReply
+//@   requires 1 <= len(cookies) && len(cookies) <= 7 && len(key) == 32 && len(uniqueid) == 32
+//@   requires forall(q, 0, len(cookies), len(cookies[q]) == 124)
+//@   ensures size: len(result) == 124+len(cookies)*128 && len(result) <= 1024
+
+func verifServerReplyMany(cookies [][]byte, key []byte, uniqueid []byte) []byte {
+	buf := make([]byte, ntpPacketLen)
+	pkt := NewResponsePacket(cookies, key, uniqueid)
+	EncodePacket(&buf, &pkt)
+	return buf
+}
+
+// Eight or more cookie/placeholder fields in a request: the reply must still be well formed ("as many as fit").
+//@ func verifServerReplyMany
+//@   requires 8 <= len(cookies) && len(cookies) <= 64 && len(key) == 32 && len(uniqueid) == 32
+//@   requires forall(q, 0, len(cookies), len(cookies[q]) == 124)
+//@   ensures size: len(result) <= 1024
